@@ -42,7 +42,18 @@ def probes():
     ps.append(("C01-unary-dummy-operand", [Local(["t"], [Call(Var("setmetatable"), Tab(), Tab(FNamed("__unm", Fn(["a", "b"], False, [Return(Bin("eq", Var("a"), Var("b")))]))))]),
                                            Return(Un("neg", Var("t")))], []))
     ps.append(("C01-call-target-before-args", [Local(["n"], []), Return(Call(Var("pcall"), Fn([], False, [SCall(Call(Var("n"), Call(Var("emit"), Int(1))))])))], []))
+    ps.append(("C01-excess-expressions-dropped", [Local(["a"], [Int(1), Call(Var("emit"), Int(2))]), Assign([Var("a")], [Int(3), Call(Var("emit"), Int(4))]),
+                                                  ForIn(["k"], [Var("next"), Tab(), Nil(), Nil(), Call(Var("emit"), Int(5))], []), Return(Var("a"))], []))
     return ps
+
+
+def open_finding_profile():
+    """constructs of findings that are still open stay out of the random stream (their probes run)"""
+    pf = {}
+    for k in vlib.load_known():
+        if k.get("id") == "C01-excess-expressions-dropped" and k.get("status") == "open":
+            pf["no_excess"] = True
+    return pf
 
 
 def gen_cases(ck, nprog, profile=None):
@@ -50,14 +61,15 @@ def gen_cases(ck, nprog, profile=None):
     cases, meta = [], []
     feats, kinds = {}, {}
     for i in range(nprog):
-        g = gen_lua.ProgramGen(ck.rng.fork(), profile)
+        g = gen_lua.ProgramGen(ck.rng.fork(), profile or open_finding_profile())
         body, tuples, f = g.program()
         for k, v in f.items():
             feats[k] = feats.get(k, 0) + v
         gen_lua.count_kinds(body, kinds)
         styles = [(i + j) % len(gen_lua.STYLES) for j in range(3)]
         for j, st in enumerate(styles):
-            cases.append({"ast": body, "style": st, "args": tuples[0] if j < 2 else tuples[1], "rseed": ck.rng.next() & 0xFFFFFFF})
+            cases.append({"ast": body, "style": st, "args": tuples[0] if j < 2 else tuples[1], "rseed": ck.rng.next() & 0xFFFFFFF,
+                          "eol": gen_lua.EOLS[(i + 2 * j + i // 4) % 4]})
             meta.append(i)
     return cases, meta, feats, kinds
 
@@ -125,7 +137,8 @@ def reference_compare(ck, mkgen, nprog, gvh, oracle):
     for i in range(nprog):
         g = mkgen(ck.rng.fork())
         body, tuples, _ = g.program()
-        cases.append({"ast": body, "style": i % len(gen_lua.STYLES), "args": tuples[0], "rseed": ck.rng.next() & 0xFFFFFFF})
+        cases.append({"ast": body, "style": i % len(gen_lua.STYLES), "args": tuples[0], "rseed": ck.rng.next() & 0xFFFFFFF,
+                      "eol": gen_lua.EOLS[(i // 3) % 4]})
     res = luacore.run_both(ck, cases, gvh, oracle)
     rr = luacore.run_ref(ref, cases)
     bad = 0
